@@ -407,3 +407,161 @@ func ruleV1(c *Ctx) {
 		R.OK("V1", "fun.(*WaitGroup).Add", pos, "invariant check dominates the store")
 	}
 }
+
+// ruleU8: Retry's attempt loop and per-attempt decision table.
+func ruleU8(c *Ctx) {
+	R := c.R
+	p := c.P
+	R.Rule("U8", "Retry(n): the loop is `for i := 0; i < n; i++` with exactly one invocation of the wrapped function per iteration (at most n attempts); per attempt: nil → return success at once (earlier failures discarded); ErrIteratorSkip → next attempt, not aggregated; context error → returned together with the earlier failures; other terminating errors → stop (Worker: nil, Producer: returned); any other error → aggregated and the loop goes on; after the loop the aggregate is returned", 2)
+	for _, name := range []string{"fun.Worker.Retry", "fun.Producer.Retry"} {
+		f := p.FuncNamed(name)
+		if f == nil {
+			R.Fail("U8", name, "-", "not found")
+			continue
+		}
+		lit := returnedLit(p, f)
+		pos := p.Position(f.Pos())
+		if lit == nil {
+			R.Undecided("U8", name, pos, "no returned closure")
+			continue
+		}
+		info := lit.Info()
+		var loop *ast.ForStmt
+		walkNoLit(lit.Body, func(x ast.Node) bool {
+			if fs, ok := x.(*ast.ForStmt); ok && loop == nil {
+				loop = fs
+			}
+			return true
+		})
+		if loop == nil {
+			R.Fail("U8", name+"/loop", pos, "Retry has no attempt loop")
+			continue
+		}
+		// canonical bounded loop over the parameter n
+		nobj := paramObj(f, 0)
+		okLoop := false
+		if as, ok := loop.Init.(*ast.AssignStmt); ok && len(as.Lhs) == 1 && len(as.Rhs) == 1 {
+			if lit0, ok := as.Rhs[0].(*ast.BasicLit); ok && lit0.Value == "0" {
+				if be, ok := loop.Cond.(*ast.BinaryExpr); ok && be.Op == token.LSS {
+					if yid, ok := ast.Unparen(be.Y).(*ast.Ident); ok && info.Uses[yid] == nobj && exprStr(be.X) == exprStr(as.Lhs[0]) {
+						if inc, ok := loop.Post.(*ast.IncDecStmt); ok && inc.Tok == token.INC && exprStr(inc.X) == exprStr(as.Lhs[0]) {
+							okLoop = true
+						}
+					}
+				}
+			}
+		}
+		R.Check(okLoop, "U8", name+"/loop", p.Position(loop.Pos()), "for i := 0; i < n; i++", name+": the attempt loop is not `for i := 0; i < n; i++` over the retry count: the number of attempts is no longer bounded by n (or n attempts are no longer made)")
+		// exactly one invocation of the wrapped function per iteration
+		robj := recvObject(f)
+		calls := 0
+		walkNoLit(loop.Body, func(x ast.Node) bool {
+			if call, ok := x.(*ast.CallExpr); ok {
+				if id, ok := ast.Unparen(call.Fun).(*ast.Ident); ok && info.Uses[id] == robj {
+					calls++
+					if lit.enclosingLoop(call) != ast.Stmt(loop) {
+						calls += 10
+					}
+				}
+			}
+			return true
+		})
+		R.Check(calls == 1, "U8", name+"/one-call", p.Position(loop.Pos()), "one invocation per attempt", fmt.Sprintf("%s invokes the wrapped function %d times per iteration (or in a nested loop)", name, calls))
+		// decision table
+		var sw *ast.SwitchStmt
+		var errObj types.Object
+		for _, es := range errSwitches(p, "fun") {
+			if es.F == lit {
+				sw, errObj = es.Switch, es.ErrObj
+			}
+		}
+		if sw == nil {
+			R.Undecided("U8", name+"/table", pos, "no classification switch found")
+			continue
+		}
+		accum := func(it *interp, call *ast.CallExpr) (string, bool) {
+			if callName(it.f.Info(), call) == "ers.Join" {
+				// the attempt's error is one of the joined values
+				for _, a := range call.Args {
+					if it.isErrExpr(a) {
+						return "accumulate", true
+					}
+				}
+			}
+			return anyEffect(it, call)
+		}
+		rows, unknown, _ := enumerate(lit, []ast.Stmt{sw}, map[types.Object]bool{errObj: true}, skipAtoms, skipConsistent, accum)
+		if len(unknown) > 0 {
+			R.Undecided("U8", name+"/table", pos, unknown[0])
+			continue
+		}
+		isWorker := strings.HasPrefix(name, "fun.Worker")
+		bad := map[string]string{}
+		seen := map[string]bool{}
+		for _, r := range rows {
+			a := r.Atoms
+			acc := false
+			for _, e := range r.Effects {
+				if e == "accumulate" {
+					acc = true
+				}
+			}
+			got := outcomeStr(lit, errObj, r)
+			// a return that joins the attempt's error is "returns the error"
+			if r.Outcome.Kind == oReturn {
+				last := r.Outcome.Results[len(r.Outcome.Results)-1]
+				if call, ok := ast.Unparen(last).(*ast.CallExpr); ok && callName(info, call) == "ers.Join" {
+					got = "return joined"
+				} else if isNilIdent(info, last) {
+					got = "return nil"
+				}
+			}
+			var cls, want string
+			switch {
+			case a["nil"]:
+				cls, want = "nil", "return nil"
+			case a["ctx"]:
+				cls, want = "context", "return joined"
+			case a["skip"] && !a["eof"] && !a["abort"] && !a["panic"]:
+				cls, want = "skip", "continue"
+				if acc {
+					got += "+accumulate"
+				}
+			case (a["eof"] || a["abort"]) && !a["skip"]:
+				cls = "terminating"
+				if isWorker {
+					want = "return nil"
+				} else {
+					want = "return joined"
+				}
+			case !a["skip"] && !a["eof"] && !a["abort"]:
+				cls, want = "other", "fall through+accumulate"
+				if acc {
+					got += "+accumulate"
+				}
+			default:
+				continue
+			}
+			seen[cls] = true
+			if got != want {
+				bad[cls] = fmt.Sprintf("row %s: got `%s`, want `%s`", r.String(), got, want)
+			}
+		}
+		for _, cls := range []string{"nil", "context", "skip", "terminating", "other"} {
+			R.Check(seen[cls] && bad[cls] == "", "U8", name+"/row:"+cls, p.Position(sw.Pos()), "as documented", name+" per-attempt decision for "+cls+": "+bad[cls])
+		}
+		// after the loop: the aggregate is returned
+		okTail := false
+		if n := len(lit.Body.List); n > 0 {
+			if rs, ok := lit.Body.List[n-1].(*ast.ReturnStmt); ok && len(rs.Results) > 0 {
+				last := rs.Results[len(rs.Results)-1]
+				if id, ok := ast.Unparen(last).(*ast.Ident); ok {
+					if v, ok := info.Uses[id].(*types.Var); ok && types.Identical(v.Type(), types.Universe.Lookup("error").Type()) {
+						okTail = true
+					}
+				}
+			}
+		}
+		R.Check(okTail, "U8", name+"/exhausted", pos, "returns the aggregated error when every attempt failed", name+" does not return the aggregated error after the last attempt: failures are reported as success")
+	}
+}
